@@ -765,6 +765,9 @@ def slice_bounds(lo, hi, n):
                 return c
             return z3.If(n + c < 0, z3.IntVal(0), n + c)
         t = term(b, 'int')
+        l, _h = bounds(t)
+        if l is not None and l >= 0:
+            return z3.simplify(t)          # known non-negative (declared / learnt bounds): no negative-index case
         return z3.If(t >= 0, t, z3.If(n + t < 0, z3.IntVal(0), n + t))
     return one(lo), one(hi)
 
